@@ -751,10 +751,78 @@ def classic_namespace_isolation(ctx):
             threading.excepthook = saved_hook
 
 
+def many_descriptors(ctx):
+    """'any number of such clients': more than a thousand bad clients (a truncated frame each, then silence) stay connected to one
+    threaded server, so that the descriptors of the clients accepted next have numbers beyond 1024 - where everything built on
+    select() stops working; well-behaved clients that come after them must still be served."""
+    import resource
+    import struct
+    soft, hard = resource.getrlimit(resource.RLIMIT_NOFILE)
+    need = 2800
+    if soft < need:
+        try:
+            resource.setrlimit(resource.RLIMIT_NOFILE, (min(hard, need) if hard != resource.RLIM_INFINITY else need, hard))
+            soft = resource.getrlimit(resource.RLIMIT_NOFILE)[0]
+        except (ValueError, OSError):
+            pass
+    if soft < need:
+        ctx.count("many_descriptors_skipped_descriptor_limit_too_low")
+        return
+    try:
+        sp = rn.ServerProc("threaded")
+    except rn.ChildError as e:
+        ctx.inconclusive("many-descriptors: could not start the server: %s" % str(e)[:200])
+        return
+    bad = []
+    wit = dict(family="many-descriptors", kind="threaded", bad_clients=1100)
+    try:
+        c0 = sp.good()
+        ok0 = c0.root.echo("before") == "before"
+        for i in range(1100):
+            s = sp.raw(timeout=10)
+            s.sendall(struct.pack(">IB", 4000, 0) + b"only the beginning")
+            bad.append(s)
+        _held, st, _n = sp.poll_state(lambda st: st["fds"] >= 1100, 25)        # let the accept loop take them all off the listener
+        ctx.maximum("descriptors_open_in_the_server_process", st["fds"])
+        results = []
+        for k in range(2):
+            try:
+                c = sp.good(sync_timeout=20)
+                results.append(c.root.echo(("late", k)) == ("late", k) and c.root.whoami() is not None)
+                c.close()
+            except Exception as e:
+                results.append("%s: %s" % (type(e).__name__, str(e)[:80]))
+        try:
+            still = c0.root.echo("still") == "still"
+        except Exception as e:
+            still = "%s: %s" % (type(e).__name__, str(e)[:80])
+        ctx.case(("many-descriptors",), nontrivial=True)
+        ctx.count("good_clients_served_beside_a_thousand_bad_ones", sum(1 for r in results if r is True))
+        served = ok0 and results == [True, True] and still is True
+        if served and st["fds"] < 1050:
+            ctx.inconclusive("many-descriptors: the server process held only %d descriptors" % st["fds"])
+        elif not served and st["fds"] < 900:
+            ctx.inconclusive("many-descriptors: good clients were not served (%r) with only %d descriptors open in the server" % (results, st["fds"]))
+        elif not served:
+            ctx.violation("C16/threaded/good-client-lost/beyond-1024-descriptors", "with %d descriptors open in the server process (1100 bad clients connected), well-behaved "
+                          "clients got %r (client connected before them: %r)" % (st["fds"], results, still), wit)
+        c0.close()
+    except (rn.ChildError, OSError, EOFError) as e:
+        ctx.inconclusive("many-descriptors: %s: %s" % (type(e).__name__, str(e)[:200]))
+    finally:
+        for s in bad:
+            try:
+                s.close()
+            except OSError:
+                pass
+        sp.kill()
+
+
 def run(ctx):
     sc = rn.SharedCtx(ctx)
     if ctx.shard[0] == 0:
         classic_namespace_isolation(ctx)
+        many_descriptors(ctx)
     configs = [(k, a) for k in SERVER_KINDS for a in (False, True)]
     if ctx.quick:
         mine, width = configs, 8        # the waits are poll intervals and back-offs of the servers, not CPU
